@@ -60,3 +60,16 @@ def SL():
     s = ps.SchedulingSolver(problem=pb).solve()
     return s.tasks['t1'].start, s.indicators
 print("StartLatest: expected t1 start 8 got", quiet(SL))
+import processscheduler as ps, io, contextlib
+def quiet(f):
+    with contextlib.redirect_stdout(io.StringIO()):
+        return f()
+def OR():
+    pb = ps.SchedulingProblem(name="or", horizon=20)
+    t = ps.FixedDurationTask(name="t", duration=2)
+    ind = ps.IndicatorFromMathExpression(name="s", expression=t._start)
+    b = ps.IndicatorBounds(indicator=ind, lower_bound=3, upper_bound=5)
+    ps.Or(list_of_constraints=[b])
+    ps.TaskStartAt(task=t, value=10)
+    return bool(ps.SchedulingSolver(problem=pb).solve())
+print("Or([3 <= s <= 5]) with s pinned at 10: expected False got", quiet(OR))
